@@ -30,6 +30,20 @@ func vfLinkFor(conn *vfConn, enc bool) (*LinkBase, *frame.Builder) {
 
 func vfI5(a, b bool) bool { return !a || b }
 
+// vfFraming: every Read asks for exactly the rest of the 2-byte length prefix,
+// then for no more than the rest of the announced frame: whatever the pieces
+// the stream arrives in, the reader stays aligned with the frame boundaries.
+func vfFraming(conn *vfConn) {
+	dataLen := int(conn.first[0])<<8 | int(conn.first[1])
+	for i, req := range conn.reqs {
+		if conn.before[i] < 2 {
+			vf.Assert(req == 2-conn.before[i], "length-prefix-read-misaligned")
+		} else {
+			vf.Assert(req >= 1 && req <= dataLen-conn.before[i], "frame-body-read-misaligned")
+		}
+	}
+}
+
 // VfC05Read: one readFrame on an arbitrary byte stream delivered in arbitrary
 // pieces, with link encryption on: no panic; a frame is delivered only after
 // AEAD open and sequence check succeeded and it parsed; its bytes are the
@@ -39,6 +53,7 @@ func VfC05Read() {
 	link, b := vfLinkFor(conn, true)
 	win0 := link.encSession.VfSeqSnap()
 	f, err := link.readFrame(b)
+	vfFraming(conn)
 	netErr := err != nil && errors.Is(err, ErrNetworkReadError)
 	dataLen := int(conn.first[0])<<8 | int(conn.first[1])
 	if !netErr && conn.total >= 2 && dataLen > 3 {
@@ -57,6 +72,9 @@ func VfC05Read() {
 		fd, e2 := f.FrameDataWithMargins(0, 0)
 		vf.Assert(e2 == nil && len(fd) == dataLen-12-16, "delivered-length")
 		vf.Assert(f.RecvLink() == frame.LinkAccessor(link), "recv-link")
+		// once only: the frame's sequence number was acceptable to the replay window as it stood
+		seq := uint32(o.Nonce[4])<<24 | uint32(o.Nonce[5])<<16 | uint32(o.Nonce[6])<<8 | uint32(o.Nonce[7])
+		vf.Assert(state.VfSeqAccepts(win0, seq, false), "delivered-frame-the-replay-window-rejects")
 		vf.Reach("delivered")
 	} else {
 		vf.Assert(f == nil, "frame-with-error")
@@ -74,6 +92,7 @@ func VfC05ReadPlain() {
 	conn := &vfConn{readsLeft: vf.Param("reads")}
 	link, b := vfLinkFor(conn, false)
 	f, err := link.readFrame(b)
+	vfFraming(conn)
 	netErr := err != nil && errors.Is(err, ErrNetworkReadError)
 	dataLen := int(conn.first[0])<<8 | int(conn.first[1])
 	if !netErr && conn.total >= 2 && dataLen > 3 {
@@ -90,7 +109,12 @@ func VfC05ReadPlain() {
 // byte is written in clear; the frame is released exactly once.
 func VfC05Write() {
 	conn := &vfConn{}
-	link, b := vfLinkFor(conn, true)
+	link, _ := vfLinkFor(conn, true)
+	// the frame may come from a builder with any margins (head/tail room for the link header and tag or not)
+	b := frame.NewFrameBuilder()
+	off, ovh := vf.Int(), vf.Int()
+	vf.Assume(off >= 0 && off <= 20 && ovh >= 0 && ovh <= 20)
+	b.SetFrameMargins(off, ovh)
 	mt := frame.MessageType(vf.U8())
 	nsw, nmsg, napx := vf.Int(), vf.Int(), vf.Int()
 	vf.Assume(nsw >= 0 && nsw <= 255 && nmsg >= 1 && nmsg <= 10000 && napx >= 0 && napx <= 10000)
